@@ -38,7 +38,8 @@ let init () =
   reg_m "h.montgomery"
     (function [x; y; m; k; n] ->
        out (fun r -> ok (res_d r))
-         (Monty.montgomery_z p (arg_d x) (arg_d y) (arg_d m) (arg_n k) (arg_n n)) | _ -> arity ());
+         (* the harness can only build these operands with verif::biguint_from_vec, which normalises *)
+         (Monty.montgomery_z p (Base.strip (arg_d x)) (Base.strip (arg_d y)) (Base.strip (arg_d m)) (arg_n k) (arg_n n)) | _ -> arity ());
   reg_m "h.monty_modpow"
     (function [x; y; m] -> out (fun r -> ok (res_u r)) (Monty.monty_modpow ap bdivrem p (arg_u x) (arg_u y) (arg_u m)) | _ -> arity ());
   reg_m "h.plain_modpow"
